@@ -20,6 +20,6 @@ open CaddyModel.C12
 #print axioms id_resolves_full_fails
 #print axioms id_on_root_full_fails
 #print axioms running_config_is_document
-#print axioms rejected_changes_nothing_partial
-#print axioms rejected_changes_nothing_full_fails
+#print axioms rejected_changes_nothing
+#print axioms rejected_changes_nothing_old_code_fails
 #print axioms ids_never_change_meaning
